@@ -188,3 +188,13 @@ Check polydiv_legacy_is_refuted :
     exists q r, polydiv u v = Ok (inl (q, r)).
 Print Assumptions polydiv_legacy_is_refuted.
 Print Assumptions polydiv_zero_divisor_lemma.   (* closed; ends the listing of float primitives above for the driver's parser *)
+
+(* ---- tie to the source by proof (package r2c): the functions regenerated from /repo/src on this run by the Rust-subset ->
+   Gallina translator (driver/rust2coq.py -> gen/Src*.v) are equal, for all arguments, to the hand-written model functions
+   the theorems above are about (Proofs/SrcEq*.v).  A change of a loop bound, index, operator or statement order in the
+   source breaks the corresponding src_<function> lemma and with it this obligation. *)
+From OV Require Proofs.SrcEqPoly.
+Theorem model_is_source_C12_Poly : forall A : Arith, @SrcEqPoly.model_is_source_Poly A.
+Proof. intros A. exact SrcEqPoly.model_is_source_Poly_lemma. Qed.
+Check model_is_source_C12_Poly : forall A : Arith, @SrcEqPoly.model_is_source_Poly A.
+Print Assumptions model_is_source_C12_Poly.
